@@ -36,8 +36,9 @@ META = dict(
                "from the previous run's (the archiver asks its tags_accessor at every start) are decided by the "
                "property oracle on real files; in the model a change of collection is the replacement of the tag list "
                "after on_stop, and OPM.C39.changed_collection_run proves that the run after it is the run of a fresh "
-               "archiver over the new tags (its files have the new header's columns and read back exactly) — the "
-               "driver has no such op, so this part of the model is tied to the code by the oracle only. 'Reads back exactly' is read as: the text that was "
+               "archiver over the new tags (its files have the new header's columns and read back exactly); the "
+               "driver's `retag` line is that replacement and the stream archiver-changed-collection compares it with "
+               "one real ArchiverTag whose tags_accessor returns another collection from run to run. 'Reads back exactly' is read as: the text that was "
                "written comes back unchanged; for a float tag the written text is, as Tag.archive documents it, the "
                "value in '%0.5f' (the model formats the exact binary value, correctly rounded, ties to even, and is "
                "compared on arbitrary doubles), so the oracle allows |read - value| <= 5e-6 for floats and demands "
@@ -688,6 +689,53 @@ def gen_retag_cases(ctx: Check):
     return cases
 
 
+def _tag_spec(tags) -> str:
+    return "|".join(f"{k};{enc(n)};{'N' if u is None else enc(u)}" for k, n, u in tags) or "N"
+
+
+def retag_lines(case):
+    """Model side of a history with changed collections: `tags` for the first run, `retag` (the tag list replaced
+    after on_stop — the state OPM.C39.changed_collection_run speaks about) before every later one."""
+    out = []
+    for k, sub in enumerate(case["retag"]):
+        out.append(("tags\t" if k == 0 else "retag\t") + _tag_spec(sub["tags"]))
+        clock = 0
+        for op in sub["ops"]:
+            if op[0] == "row":
+                clock += 1
+            out.append(op_line(op, clock))
+    return out + ["files", "readall", "last"]
+
+
+def run_retag_case(case, tmp):
+    """Implementation side: ONE ArchiverTag, its tags_accessor returning another collection from run to run."""
+    d = tempfile.mkdtemp(dir=tmp)
+    subs = case["retag"]
+    rig = Rig(subs[0], d)
+    out = []
+    for k, sub in enumerate(subs):
+        if k:
+            rig.retag(sub)
+        out.append("ok")
+        for op in sub["ops"]:
+            rig.op(op)
+            out.append("ok")
+    try:
+        shipped = rig.stop_and_read()
+        last = "nofile" if shipped is None else enc(shipped)
+    except Exception as e:
+        last = f"err:{type(e).__name__}"
+    paths = rig.files()
+    texts = []
+    for p in paths:
+        with open(p, "r", newline="", encoding="utf-8") as f:
+            texts.append(f.read())
+    out.append(str(len(paths)) + "".join("\t" + enc(t) for t in texts))
+    out.append(str(len(paths)) + "".join(" # " + py_read_file(p) for p in paths))
+    out.append(last)
+    return out
+
+
 def oracle_retag(case, tmp) -> list[Failure]:
     """The property per file, for runs whose tag collections differ: the k-th file has the header of the k-th run's
     tags, every data row has that header's columns, and the values read back are the ones set on that run's tags."""
@@ -767,6 +815,8 @@ def _run(ctx: Check, tmp: str) -> int:
     ctx.monitor(rows, oracle_roundtrip)
     ctx.monitor(cases, lambda c: oracle_archive(c, tmp))
     retag = gen_retag_cases(ctx)
+    ctx.correspond("archiver-changed-collection", "Archive", retag, retag_lines, lambda c: run_retag_case(c, tmp),
+                   nontrivial=lambda c, o: any(a["tags"] != b["tags"] for a, b in zip(c["retag"], c["retag"][1:])))
     ctx.monitor(retag, lambda c: oracle_retag(c, tmp))
     ctx.count("archiver:runs-with-changed-collection", sum(len(c["retag"]) - 1 for c in retag))
     ctx.exhaustive = False
@@ -779,8 +829,8 @@ def _run(ctx: Check, tmp: str) -> int:
         "CPython csv writer/reader and text-file line splitting are modelled for this dialect and validated differentially",
         "tag classes are the ones in the tree: archive() is None for ArchiverTag only, and then always",
         "runs whose tag collection differs from the previous run's (other tags, other order, the archiver tag a member "
-        "elsewhere or not at all; same ArchiverTag instance) are judged by the property oracle on the real files; the "
-        "model side is OPM.C39.changed_collection_run (tag list replaced after on_stop), not driven by a stream",
+        "elsewhere or not at all; same ArchiverTag instance): correspondence stream archiver-changed-collection (model: "
+        "tag list replaced after on_stop, OPM.C39.changed_collection_run) and the property oracle on the real files",
         "several runs per history (Stop = next file name); starts below the disk-space guard (os.statvfs and get_free_space_mb report "
         "2 MB) prepare no file: such a run has no archive and no rows, what was archived is judged per file left "
         "behind (each must start with the header of its tags); read_last_run_archive raising FileNotFoundError for a "
